@@ -891,10 +891,37 @@ pub struct Scale {
     pub cap: usize,
 }
 
-pub const G7_FAMILIES: usize = 37;
+pub const G7_FAMILIES: usize = 61;
 
 /// Adversarial scaling family `fam` at size about `n` bytes.
+/// Combinatorial tiny-header families (fam 37..60): line ending x value shape x OWS, through
+/// Request::parse (18) and parse_headers (6). Many short lines make per-line costs visible.
+fn g7_tiny(fam: usize, n: usize) -> Scale {
+    const NAMES: [&str; 24] = [
+        "tiny_crlf_empty", "tiny_crlf_empty_sp", "tiny_crlf_empty_sptab", "tiny_crlf_b", "tiny_crlf_b_sp", "tiny_crlf_b_sptab", "tiny_crlf_bcd", "tiny_crlf_bcd_sp", "tiny_crlf_bcd_sptab",
+        "tiny_lf_empty", "tiny_lf_empty_sp", "tiny_lf_empty_sptab", "tiny_lf_b", "tiny_lf_b_sp", "tiny_lf_b_sptab", "tiny_lf_bcd", "tiny_lf_bcd_sp", "tiny_lf_bcd_sptab",
+        "hdrs_crlf_empty", "hdrs_crlf_b", "hdrs_crlf_bcd", "hdrs_lf_empty", "hdrs_lf_b", "hdrs_lf_bcd",
+    ];
+    let k = fam - 37;
+    let (lf, val, ows, hdr_entry) = if k < 18 { (k / 9 == 1, (k % 9) / 3, k % 3, false) } else { ((k - 18) / 3 == 1, (k - 18) % 3, 0, true) };
+    let mut unit = b"a:".to_vec();
+    unit.extend_from_slice([&b""[..], b" ", b" \t"][ows]);
+    unit.extend_from_slice([&b""[..], b"b", b"b c d"][val]);
+    unit.extend_from_slice([&b""[..], b" ", b" \t"][ows]);
+    unit.extend_from_slice(if lf { b"\n" } else { b"\r\n" });
+    let mut b: Vec<u8> = if hdr_entry { Vec::new() } else { b"GET / HTTP/1.1\r\n".to_vec() };
+    let lines = n / unit.len() + 1;
+    for _ in 0..lines {
+        b.extend_from_slice(&unit);
+    }
+    b.extend_from_slice(if lf { b"\n" } else { b"\r\n" });
+    Scale { name: NAMES[k], entry: if hdr_entry { Entry::H } else { Entry::R1 }, cfg: 0, buf: b, cap: lines + 2 }
+}
+
 pub fn g7(fam: usize, n: usize) -> Scale {
+    if fam >= 37 {
+        return g7_tiny(fam, n);
+    }
     let rep = |unit: &[u8], total: usize| -> Vec<u8> {
         let mut v = Vec::with_capacity(total + unit.len());
         while v.len() < total {
@@ -1389,6 +1416,18 @@ fn g9_folds_and_families(kind: Kind, level: usize, f: &mut dyn FnMut(&[u8])) {
                     m.extend_from_slice(b"\r\n \r\n\tlast");
                 }
                 m.extend_from_slice(tail);
+                f(&m);
+            }
+        }
+    }
+    // every leading run over {CR, LF} up to a length bound (word-at-a-time skipping of empty lines)
+    if kind != Kind::Hdr {
+        let kmax = if level == 0 { 9 } else if level == 1 { 13 } else { 17 };
+        let msg: &[u8] = if kind == Kind::Req { b"GET / HTTP/1.1\r\nH: v\r\n\r\n" } else { b"HTTP/1.1 200 OK\r\nH: v\r\n\r\n" };
+        for k in 1..=kmax {
+            for bits in 0..(1u32 << k) {
+                let mut m: Vec<u8> = (0..k).map(|i| if bits >> i & 1 == 1 { b'\r' } else { b'\n' }).collect();
+                m.extend_from_slice(msg);
                 f(&m);
             }
         }
